@@ -267,4 +267,33 @@ theorem sleb_roundtrip (v : Int) (hlo : -(2 ^ 63 : Int) ≤ v) (hhi : v < (2 ^ 6
   simp only [BitVec.toNat_ofNat, Nat.zero_mod, Nat.pow_zero, Int.natCast_zero, Int.natCast_one, Int.mul_one, Int.zero_add] at h
   simpa [trySLEB128] using h
 
+
+/-- k continuation bytes are consumed one by one as long as the shift stays below 63 (signed loop) -/
+theorem sleb_conts (cs : List Nat) : ∀ (pre tail : Bits) (shift : Nat) (result : BitVec 64) (fuel : Nat),
+    (∀ c ∈ cs, 128 ≤ c ∧ c < 256) → shift + 7 * cs.length ≤ 63 →
+    ∃ result', slebLoop (pre ++ bitsOfBytes cs ++ tail) (fuel + cs.length) pre.length shift result
+      = slebLoop (pre ++ bitsOfBytes cs ++ tail) fuel (pre.length + 8 * cs.length) (shift + 7 * cs.length) result' := by
+  induction cs with
+  | nil => intro pre tail shift result fuel _ _; exact ⟨result, by simp⟩
+  | cons c cs ih =>
+    intro pre tail shift result fuel hc hs
+    have hc0 := hc c (by simp)
+    simp only [List.length_cons] at hs ⊢
+    have hbits : pre ++ bitsOfBytes (c :: cs) ++ tail = pre ++ toBitsBE 8 c ++ (bitsOfBytes cs ++ tail) := by
+      simp [bitsOfBytes, List.append_assoc]
+    have hassoc : pre ++ toBitsBE 8 c ++ (bitsOfBytes cs ++ tail) = (pre ++ toBitsBE 8 c) ++ bitsOfBytes cs ++ tail := by
+      simp [List.append_assoc]
+    have hplen : (pre ++ toBitsBE 8 c).length = pre.length + 8 := by simp [toBitsBE_length]
+    have hf : fuel + (cs.length + 1) = (fuel + cs.length) + 1 := by omega
+    rw [hbits, hf]
+    conv => enter [1, result', 1]; unfold slebLoop
+    simp only [u8_at pre _ c hc0.2, Res.bind]
+    have hnot : ¬ (shift = 63 ∧ c ≠ 0 ∧ c ≠ 0x7f) := by omega
+    simp only [if_neg hnot, if_neg (cont_bit c hc0.2 hc0.1)]
+    obtain ⟨r', hr'⟩ := ih (pre ++ toBitsBE 8 c) tail (shift + 7) (result ||| (BitVec.ofNat 64 (c &&& 127)) <<< shift) fuel
+      (fun x hx => hc x (by simp [hx])) (by omega)
+    refine ⟨r', ?_⟩
+    rw [hassoc, ← hplen, hr', hplen]
+    congr 1 <;> omega
+
 end Proofs.C02
